@@ -25,7 +25,7 @@ Skip == l' = l + 1 /\ UNCHANGED <<bad, stats, s, sc, emitted>>
 
 EntryOf(n) == s.entries[CHOOSE i \in DOMAIN s.entries : s.entries[i].name = n]
 Healthy == {s.entries[i].name : i \in {j \in DOMAIN s.entries : Launchable(s.entries[j]) /\ s.entries[j].behaviour \in {"healthy", "liar"}}}
-DieLater == {s.entries[i].name : i \in {j \in DOMAIN s.entries : Launchable(s.entries[j]) /\ s.entries[j].behaviour = "dielater"}}
+DieLater == {s.entries[i].name : i \in {j \in DOMAIN s.entries : Launchable(s.entries[j]) /\ s.entries[j].behaviour \in {"dielater", "hang"}}}
 
 TBegin == Go("scenarios", [entries |-> Ev.entries, dropins |-> SetOf(Ev.dropins), started |-> FALSE, syncfails |-> Ev.syncfails])
 
@@ -42,7 +42,7 @@ TReport ==
   ELSE IF SetOf(Ev.env) # EnvOf(e) \/ Len(Ev.env) # 3 THEN Reject("C18-environment", <<Ev.name, Ev.env>>)
   ELSE IF Ev.fd3 # "socket" THEN Reject("C18-socket", <<Ev.name, Ev.fd3>>)
   ELSE IF Len(Ev.leaks) > 0 THEN Reject("C18-descriptor-leak", <<Ev.name, Ev.leaks>>)
-  ELSE IF ~s.syncfails /\ e.behaviour \in {"healthy", "dielater", "failsync", "liar"} /\ ~Ev.configured THEN Reject("C18-not-configured", <<Ev.name>>)
+  ELSE IF ~s.syncfails /\ e.behaviour \in {"healthy", "dielater", "failsync", "liar", "hang"} /\ ~Ev.configured THEN Reject("C18-not-configured", <<Ev.name>>)
   ELSE IF Ev.configured /\ Ev.config # ConfigOf(e, s.dropins) THEN Reject("C18-configuration", <<Ev.name, Ev.config>>)
   ELSE Go("launched", s)
 
